@@ -740,7 +740,7 @@ func byzCases() []byzCase {
 	// an admissible event of a validator whose block-signature payload is hostile
 	for _, sg := range []struct {
 		name, sig string
-		index int
+		index     int
 	}{
 		{"a signature string without separator", "abc", 1}, {"a signature string with three parts", "1|2|3", 1}, {"an empty signature string", "", 1},
 		{"a signature string \"|\"", "|", 1}, {"a non-numeric signature string", "zz|1", 1}, {"a well-formed but wrong signature", "1|1", 1},
